@@ -1,0 +1,51 @@
+// Copyright (C) 2024, Ava Labs, Inc. All rights reserved.
+// See the file LICENSE for licensing terms.
+
+//go:build verif
+
+package dsmr
+
+import (
+	"github.com/ava-labs/avalanchego/utils/wrappers"
+
+	"github.com/ava-labs/hypersdk/codec"
+	"github.com/ava-labs/hypersdk/consts"
+	"github.com/ava-labs/hypersdk/utils"
+)
+
+// This file only exports what has no exported constructor, so that an external
+// verification harness can assemble nodes, blocks and a real validity window
+// the way node_test.go does from inside the package. It changes no behaviour.
+
+// EmapChunkCertificate is the item type of the chunk certificate validity window.
+type EmapChunkCertificate = emapChunkCertificate
+
+// NewVerifBlock returns a Block whose bytes and ID are derived from the header
+// and certificates exactly as Node.BuildBlock derives them.
+func NewVerifBlock(header BlockHeader, chunkCerts []*ChunkCertificate) (Block, error) {
+	blk := Block{
+		BlockHeader: header,
+		ChunkCerts:  chunkCerts,
+	}
+
+	packer := wrappers.Packer{Bytes: make([]byte, 0, InitialChunkSize), MaxSize: consts.NetworkSizeLimit}
+	if err := codec.LinearCodec.MarshalInto(blk, &packer); err != nil {
+		return Block{}, err
+	}
+
+	blk.blkBytes = packer.Bytes
+	blk.blkID = utils.ToID(blk.blkBytes)
+	return blk, nil
+}
+
+func NewGetChunkHandler[T Tx](storage *ChunkStorage[T]) *GetChunkHandler[T] {
+	return &GetChunkHandler[T]{storage: storage}
+}
+
+func NewChunkSignatureRequestVerifier[T Tx](verifier Verifier[T], storage *ChunkStorage[T]) ChunkSignatureRequestVerifier[T] {
+	return ChunkSignatureRequestVerifier[T]{verifier: verifier, storage: storage}
+}
+
+func NewChunkCertificateGossipHandler[T Tx](storage *ChunkStorage[T]) ChunkCertificateGossipHandler[T] {
+	return ChunkCertificateGossipHandler[T]{storage: storage}
+}
